@@ -144,9 +144,17 @@ def unquote_model(s):
     return "".join(out)
 
 
+def unquote_plus_model(s):
+    """urllib.parse.unquote_plus: '+' -> ' ' first, then unquote"""
+    out = ""
+    for c in s:
+        out += " " if c == "+" else c
+    return unquote_model(out)
+
+
 def install_unquote_model():
     P = _mods()["parser"]
-    ns = types.SimpleNamespace(parse=types.SimpleNamespace(unquote=unquote_model))
+    ns = types.SimpleNamespace(parse=types.SimpleNamespace(unquote=unquote_model, unquote_plus=unquote_plus_model))
     _set(P, "urllib", ns)
 
 
